@@ -334,6 +334,16 @@ Proof.
   intros L (f & _ & H). exists f. unfold run_func. rewrite L, Nat.eqb_refl. exact H.
 Qed.
 
+(** a property of the result rather than one result (e.g. with an existential inside) *)
+Lemma wp_run_func_P p fd args body env0 outs (Pr : fres -> Prop) :
+  f_body fd = body -> f_outs fd = outs -> init_env fd args = env0 ->
+  length args = f_nparams fd ->
+  wp p body env0 (fun o => Pr (ret_of outs o)) ->
+  exists fuel, Pr (run_func fuel p fd args).
+Proof.
+  intros <- <- <- L (f & _ & H). exists f. unfold run_func. rewrite L, Nat.eqb_refl. exact H.
+Qed.
+
 (** the same with body, initial environment and in/out list computed once *)
 Lemma wp_run_func' p fd args r body env0 outs :
   f_body fd = body -> f_outs fd = outs -> init_env fd args = env0 ->
@@ -509,6 +519,14 @@ Ltac closed_cond c :=
   | Z.ltb ?a ?b => is_Zconst a; is_Zconst b
   | Z.leb ?a ?b => is_Zconst a; is_Zconst b
   end.
+
+Ltac start_func_P f :=
+  eapply wp_run_func_P;
+  [ cbv [f f_body]; reflexivity
+  | cbv [f f_outs]; reflexivity
+  | cbv [init_env f f_nvars app repeat Nat.sub length]; reflexivity
+  | reflexivity
+  | ].
 
 (** [stepn]: like [step] with normalisation before closing the evaluation *)
 Ltac stepn :=
